@@ -1,8 +1,252 @@
 /-
-C16 — property theorems (stub; see DESIGN.md §6).
+C16 — FALCON / TD-FALCON.
+
+Model: `ArtModel/Falcon.lean` on top of `ArtModel/Fusion.lean` with the channels
+state | action | reward.  Proved for every ordered field, every channel layout and
+trained weight list:
+  * `falcon_fit_is_fusion_fit` — training is FusionART training on the joined rows;
+  * `get_rewards_is_centre` — `get_rewards` = reward-channel centre of the category chosen
+    with the reward channel withheld (which reads only the state and action columns);
+  * `get_action_greedy` — `get_action` returns the member of the action space at the first
+    arg-max (arg-min on request) of the predicted scalar reward;
+  * `sarsa_target_formula`, `sarsa_target_count`, `sarsa_untrained`, `sarsa_single_transition`,
+    `sarsa_target_valid` — TD-FALCON's learning targets.
+Standing assumptions (named in the statements): the reward centre is one number (reward
+channel = one complement-coded scalar; for wider reward channels `np.argmax` runs over the
+flattened array and the flat index is used for the action space — outside the theorem);
+"`r` alone before any training" is read as `Q ≡ 0` in the formula, so the untrained target is
+`clip(td_alpha · r)` (which is `r` for the default `td_alpha = 1`).
 -/
-import ArtModel.Basic
+import ArtProofs.Falcon
 
 namespace Art.C16
+open Art Art.Fusion Art.Falcon
+
+set_option linter.unusedSectionVars false
+
+section Core
+variable {α : Type} [Field α] [LinearOrder α] [IsStrictOrderedRing α]
+
+/-- **FALCON training is FusionART training on the joined state|action|reward rows**
+(`fit` and `partial_fit`), and the joined row is what `join_channel_data` builds. -/
+theorem falcon_fit_is_fusion_fit {θ : Type} (chans : List (Chan α)) (cfg : SearchCfg (List α) θ) (th0 : θ)
+    (st : ArtState (List α)) (S A R : List (List α)) :
+    falconFit chans cfg th0 st S A R = fit (fusionKernel chans) cfg th0 noVeto st (falconRows S A R) ∧
+    falconPartialFit chans cfg th0 st S A R =
+      partialFit (fusionKernel chans) cfg th0 noVeto st (falconRows S A R) ∧
+    ∀ (w0 w1 w2 : Nat) (s a r : List α),
+      joinRow [w0, w1, w2] noSkip (half : α) [s, a, r] = some (falconRow s a r) := by
+  refine ⟨rfl, rfl, ?_⟩
+  intro w0 w1 w2 s a r
+  simp [joinRow, joinFrom, noSkip, falconRow]
+
+/-- TD-FALCON's `partial_fit` is FusionART `partial_fit` on the joined SARSA rows -/
+theorem td_partial_fit_is_fusion_fit {θ : Type} (chans : List (Chan α)) (cfg : SearchCfg (List α) θ) (th0 : θ)
+    (centreR : List α → List α) (al la : α) (trained : Bool) (st : ArtState (List α))
+    (S A R : List (List α)) (ssr : Option α) :
+    tdPartialFit chans cfg th0 centreR al la trained st S A R ssr =
+      partialFit (fusionKernel chans) cfg th0 noVeto st
+        (falconRows (calcSarsa al la trained (qValue chans centreR st.W) S A R ssr).1
+          (calcSarsa al la trained (qValue chans centreR st.W) S A R ssr).2.1
+          (calcSarsa al la trained (qValue chans centreR st.W) S A R ssr).2.2) := rfl
+
+/-- **`get_rewards`** returns the reward-channel centre of the category selected with the
+reward channel withheld; that category does not depend on what stands in the reward columns
+of the query (the code writes `0.5` there). -/
+theorem get_rewards_is_centre (chans : List (Chan α)) (centreR : List α → List α) (W : List (List α))
+    (s a : List α) :
+    getReward chans centreR W s a =
+      (rewardCategory chans W s a).bind (fun c => (W[c]?).map (fun w => centreR (slice (widths chans) 2 w))) ∧
+    ∀ x' : List α,
+      (∀ k, skipReward k = false → slice (widths chans) k (queryRow chans s a) = slice (widths chans) k x') →
+      rewardCategory chans W s a = stepPredSkip chans skipReward W x' :=
+  ⟨getReward_eq chans centreR W s a,
+   fun x' h => stepPredSkip_indep chans skipReward W (queryRow chans s a) x' h⟩
+
+/-- … and that category is the first arg-max of the state and action channels' gamma-weighted
+activations (C11) -/
+theorem get_rewards_category (chans : List (Chan α)) (W : List (List α)) (s a : List α) :
+    rewardCategory chans W s a =
+      argmaxNp (W.map (restChoice chans skipReward W (queryRow chans s a))) :=
+  stepPredSkip_eq_rest chans skipReward W (queryRow chans s a)
+
+/-- **`get_action` is greedy, first on ties.**  `vs` = the predicted scalar rewards of the
+members of the action space (supplied, or the action-channel centres).  The action returned is
+the member at the first index of the maximal (minimal, for `optimality="min"`) reward. -/
+theorem get_action_greedy (chans : List (Chan α)) (centreA centreR prepA : List α → List α)
+    (W : List (List α)) (state : List α) (space : Option (List (List α))) (vs : List α)
+    (hvs : actionRewards chans centreA centreR prepA W state space = vs.map (fun v => some [v]))
+    (a : List α) :
+    (getAction chans centreA centreR prepA W state space true = some a →
+      ∃ i v, (actionSpace chans centreA W space)[i]? = some a ∧ IsFirstMax (vs.map some) i v) ∧
+    (getAction chans centreA centreR prepA W state space false = some a →
+      ∃ i v, (actionSpace chans centreA W space)[i]? = some a ∧ IsFirstMin vs i v) := by
+  constructor
+  · intro h
+    rw [getAction_scalar chans centreA centreR prepA W state space true vs hvs] at h
+    simp only [if_true] at h
+    cases hi : argmaxFirst vs with
+    | none => simp [hi] at h
+    | some i =>
+      obtain ⟨v, hv⟩ := argmaxFirst_first hi
+      exact ⟨i, v, by simpa [hi] using h, hv⟩
+  · intro h
+    rw [getAction_scalar chans centreA centreR prepA W state space false vs hvs] at h
+    simp only [Bool.false_eq_true, if_false] at h
+    cases hi : argminFirst vs with
+    | none => simp [hi] at h
+    | some i =>
+      obtain ⟨v, hv⟩ := argminFirst_first hi
+      exact ⟨i, v, by simpa [hi] using h, hv⟩
+
+/-- a non-empty action space with scalar rewards always yields an action -/
+theorem get_action_defined (chans : List (Chan α)) (centreA centreR prepA : List α → List α)
+    (W : List (List α)) (state : List α) (space : Option (List (List α))) (maximize : Bool) (vs : List α)
+    (hvs : actionRewards chans centreA centreR prepA W state space = vs.map (fun v => some [v]))
+    (hne : vs ≠ []) :
+    (getAction chans centreA centreR prepA W state space maximize).isSome := by
+  rw [getAction_scalar chans centreA centreR prepA W state space maximize vs hvs]
+  have hlen : (actionSpace chans centreA W space).length = vs.length := by
+    have := congrArg List.length hvs
+    simpa [actionRewards] using this
+  cases maximize with
+  | true =>
+    simp only [if_true]
+    cases hi : argmaxFirst vs with
+    | none =>
+      have := nanargmax_eq_none_iff.mp hi
+      cases vs with
+      | nil => exact absurd rfl hne
+      | cons v vs => simpa using this (some v) (by simp)
+    | some i =>
+      have hlt : i < vs.length := by simpa using nanargmax_lt_length hi
+      simp [List.getElem?_eq_getElem (hlen ▸ hlt)]
+  | false =>
+    simp only [Bool.false_eq_true, if_false]
+    cases hi : argminFirst vs with
+    | none =>
+      simp only [argminFirst, Option.map_eq_none_iff] at hi
+      exact absurd (argminV_nil_iff.mp hi) hne
+    | some i =>
+      obtain ⟨v, hv⟩ := argminFirst_first hi
+      have hlt : i < vs.length := (List.getElem?_eq_some_iff.mp hv.at_k).1
+      simp [List.getElem?_eq_getElem (hlen ▸ hlt)]
+
+/-- **SARSA targets.**  For an episode of `n > 1` transitions, the `i`-th learning target
+(`i + 1 < n`) is the complement code of
+`clip(Q_i + td_alpha·(r_i + td_lambda·Q_{i+1} − Q_i), 0, 1)`, where `r_i` is the de-complemented
+reward, `Q_i = Q(s_i, a_i)` from the current model when it is trained and `0` otherwise; the
+states and actions kept are all but the last. -/
+theorem sarsa_target_formula (al la : α) (trained : Bool) (Q : List α → List α → α)
+    (S A R : List (List α)) (ssr : Option α) (hn : 1 < S.length) (hA : A.length = S.length)
+    (hR : R.length = S.length) (i : Nat) (hi : i + 1 < S.length) :
+    let Qs := if trained then List.zipWith Q S A else (R.map deccScalar).map (fun _ => (0 : α))
+    (calcSarsa al la trained Q S A R ssr).1 = S.dropLast ∧
+    (calcSarsa al la trained Q S A R ssr).2.1 = A.dropLast ∧
+    (calcSarsa al la trained Q S A R ssr).2.2[i]? =
+      some (ccScalar (clip01 (Qs.getD i 0 + al * (deccScalar (R.getD i []) + la * Qs.getD (i + 1) 0 - Qs.getD i 0)))) := by
+  intro Qs
+  have hQl : Qs.length = S.length := by
+    simp only [Qs]; split <;> simp [hA, hR]
+  simp only [calcSarsa, hn, if_true, true_and]
+  rw [List.getElem?_map]
+  have := sarsaList_getElem? al la Qs (R.map deccScalar) i (by omega) (by simp; omega)
+  simp only [Qs] at this ⊢
+  rw [this]
+  simp only [Option.map_some, sarsaScalar, Option.some.injEq]
+  congr 3
+  have hiR : i < R.length := by omega
+  simp [List.getD_eq_getElem?_getD, List.getElem?_map, List.getElem?_eq_getElem hiR]
+
+/-- one target for every transition but the last -/
+theorem sarsa_target_count (al la : α) (trained : Bool) (Q : List α → List α → α)
+    (S A R : List (List α)) (ssr : Option α) (hn : 1 < S.length) (hA : A.length = S.length)
+    (hR : R.length = S.length) :
+    (calcSarsa al la trained Q S A R ssr).2.2.length = S.length - 1 := by
+  simp only [calcSarsa, hn, if_true, List.length_map, sarsaList_length]
+  split <;> simp [hA, hR]
+
+/-- before any training (`Q ≡ 0`) the target is `clip(td_alpha · r)` — `r` itself for `td_alpha = 1` -/
+theorem sarsa_untrained (al la r : α) :
+    sarsaScalar al la 0 r 0 = clip01 (al * r) ∧ (0 ≤ r → r ≤ 1 → sarsaScalar 1 la 0 r 0 = r) := by
+  constructor
+  · unfold sarsaScalar; congr 1; ring
+  · intro h0 h1
+    unfold sarsaScalar
+    rw [show (0 : α) + 1 * (r + la * 0 - 0) = r by ring]
+    exact clip01_of_mem r h0 h1
+
+/-- **A single-transition episode yields `r`**: the supplied reward row unchanged (or the
+complement code of `single_sample_reward`), states and actions unchanged. -/
+theorem sarsa_single_transition (al la : α) (trained : Bool) (Q : List α → List α → α)
+    (s a r : List α) (v : α) :
+    calcSarsa al la trained Q [s] [a] [r] none = ([s], [a], [r]) ∧
+    calcSarsa al la trained Q [s] [a] [r] (some v) = ([s], [a], [ccScalar v]) := by
+  simp [calcSarsa]
+
+/-- **Targets are valid reward-channel inputs**: every SARSA target lies in `[0,1]`, its row is
+`[t, 1 − t]` (sums to 1) and passes the reward module's validator (any tolerance `≥ 0`; the code
+uses `0.01`). -/
+theorem sarsa_target_valid (tol al la : α) (htol : 0 ≤ tol) (trained : Bool) (Q : List α → List α → α)
+    (S A R : List (List α)) (ssr : Option α) (hn : 1 < S.length) :
+    ∀ row ∈ (calcSarsa al la trained Q S A R ssr).2.2,
+      validRewardRow tol row = true ∧ ∃ t, 0 ≤ t ∧ t ≤ 1 ∧ row = [t, 1 - t] := by
+  intro row hrow
+  simp only [calcSarsa, hn, if_true, List.mem_map] at hrow
+  obtain ⟨t, ht, rfl⟩ := hrow
+  have hmem : ∀ Qs rs : List α, ∀ t ∈ sarsaList al la Qs rs, 0 ≤ t ∧ t ≤ 1 := by
+    intro Qs rs
+    induction rs generalizing Qs with
+    | nil =>
+      match Qs with
+      | [] => simp [sarsaList]
+      | [_] => simp [sarsaList]
+      | _ :: _ :: _ => simp [sarsaList]
+    | cons r rs ih =>
+      match Qs with
+      | [] => simp [sarsaList]
+      | [_] => simp [sarsaList]
+      | q :: q' :: Qs =>
+        intro t ht
+        simp only [sarsaList, List.mem_cons] at ht
+        rcases ht with rfl | ht
+        · exact clip01_mem _
+        · exact ih (q' :: Qs) t ht
+  obtain ⟨h0, h1⟩ := hmem _ _ t ht
+  exact ⟨validRewardRow_cc tol t htol h0 h1, t, h0, h1, rfl⟩
+
+/-- the single-transition target with `single_sample_reward ∈ [0,1]` is valid too -/
+theorem sarsa_single_valid (tol v : α) (htol : 0 ≤ tol) (h0 : 0 ≤ v) (h1 : v ≤ 1) :
+    validRewardRow tol (ccScalar v) = true := validRewardRow_cc tol v htol h0 h1
+
+end Core
+
+/-! ### Non-vacuity (ℚ; Fuzzy channels, alpha = 1/4, beta = 1, rho = 3/4 each; identity bounds) -/
+private def ch : List (Chan Rat) :=
+  [⟨fuzzyKernel (1/4) 1 1, 2, 1/4⟩, ⟨fuzzyKernel (1/4) 1 1, 2, 1/4⟩, ⟨fuzzyKernel (1/4) 1 1, 2, 1/2⟩]
+private def cfgQ : SearchCfg (List Rat) (List Rat) := fusionCfg .plus (· + 0) (· - 0) 0
+private def ccQ (v : List Rat) : List Rat := v ++ vcompl v
+private def S0 : List (List Rat) := [[0, 1], [1, 0], [0, 1]]
+private def A0 : List (List Rat) := [[0, 1], [0, 1], [1, 0]]
+private def R0 : List (List Rat) := [[1/4, 3/4], [1, 0], [1/2, 1/2]]
+private def st0 := falconFit ch cfgQ [3/4, 3/4, 3/4] {} S0 A0 R0
+
+example : st0.labels = [0, 1, 2] := by decide +kernel
+-- rewards of the three training pairs are the reward centres of their categories
+example : getRewards ch fuzzyCentre st0.W S0 A0 = [some [1/4], some [1], some [1/2]] := by decide +kernel
+-- greedy action in state [0,1] over the action space {0, 1}: action 1 pays 1/2 > 1/4
+example : getAction ch fuzzyCentre fuzzyCentre ccQ st0.W [0, 1] (some [[0], [1]]) true = some [1] := by decide +kernel
+example : getAction ch fuzzyCentre fuzzyCentre ccQ st0.W [0, 1] (some [[0], [1]]) false = some [0] := by decide +kernel
+-- ties go to the first member
+example : getAction ch fuzzyCentre fuzzyCentre ccQ st0.W [0, 1] (some [[1], [1], [0]]) true = some [1] := by decide +kernel
+-- default action space = action-channel centres of the three categories
+example : getAction ch fuzzyCentre fuzzyCentre ccQ st0.W [1, 0] none true = some [0] := by decide +kernel
+-- SARSA on the same episode with the trained model, td_alpha = 1/2, td_lambda = 1/2:
+-- Q = [1/4, 1, 1/2], r = [1/4, 1, 1/2]; t0 = 1/4 + 1/2 (1/4 + 1/2 - 1/4) = 1/2, t1 = 1 + 1/2 (1 + 1/4 - 1) = 9/8 -> 1
+example : calcSarsa (1/2) (1/2) true (qValue ch fuzzyCentre st0.W) S0 A0 R0 none =
+    ([[0, 1], [1, 0]], [[0, 1], [0, 1]], [[1/2, 1/2], [1, 0]]) := by decide +kernel
+-- untrained: clip(alpha * r)
+example : (calcSarsa (1/2 : Rat) 1 false (fun _ _ => 0) S0 A0 R0 none).2.2 = [[1/8, 7/8], [1/2, 1/2]] := by
+  decide +kernel
 
 end Art.C16
